@@ -13,7 +13,10 @@ from sim import core
 
 # values worth writing into a 4-byte field of a marshal stream / pyc header
 INT_SPECIALS = [0, 1, 2, 255, 256, 65535, 65536, 1 << 24, (1 << 31) - 1, -1, -2, -(1 << 31), 0x7FFFFFF0,
-                0x40000000, 0x3FFFFFFF, 1000, 100000]
+                0x40000000, 0x3FFFFFFF, 1000, 100000,
+                # small negative lengths: a reader that computes pos + n moves BACKWARDS (-5 = back onto the type
+                # code of a 4-byte-length object, -2 onto that of a 1-byte-length one)
+                -3, -4, -5, -6, -7, -8, -9, -10, -13]
 
 TYPE_CODES = b"0NS.FTilIfgxysAazZtu)([<>{Rcr?"
 CONTAINER_CODES = b"([)<>{"
@@ -513,9 +516,19 @@ def synth_not_bytecode(rng, magics):
         b = rng.choice([0, 1, 15, 16, 17, 64, 200, 4096, 65536, (1 << 31) - 1, -1, -16, rng.between(1, 600)])
         pad = (b + 15) & ~0xF
         body = rng.bytes(max(0, min(pad if pad > 0 else 0, 2000)) + rng.choice([0, 0, 1, 7]))
-        data = struct.pack("<H", 62135) + rng.choice([b"\r\n", b"\r\n", rng.bytes(2)]) + rng.bytes(4) + \
-            rng.choice([b"c", b"c", b"(\x01\x00\x00\x00c", b"[\x02\x00\x00\x00c"]) + \
-            struct.pack("<i", rng.bits(32) - (1 << 31)) + struct.pack("<i", b) + body
+        if rng.chance(1, 2):
+            data = struct.pack("<H", 62135) + rng.choice([b"\r\n", b"\r\n", rng.bytes(2)]) + rng.bytes(4) + \
+                rng.choice([b"c", b"c", b"(\x01\x00\x00\x00c", b"[\x02\x00\x00\x00c"]) + \
+                struct.pack("<i", rng.bits(32) - (1 << 31)) + struct.pack("<i", b) + body
+        else:
+            # the buffer-based reader behind this magic: containers with large counts, strings with small negative
+            # lengths (pos + n moves backwards), string references out of range
+            items = b"".join(rng.choice([b"s", b"t", b"u", b"R", b"i", b"l"]) +
+                             struct.pack("<i", rng.choice([-1, -2, -4, -5, -5, -6, -9, 0, 3, (1 << 31) - 1]))
+                             for _ in range(rng.between(1, 6)))
+            data = struct.pack("<H", 62135) + b"\r\n" + rng.bytes(4) + \
+                rng.choice([b"[", b"(", b"<", b">"]) + struct.pack("<i", rng.choice([(1 << 31) - 1, 1 << 22, 300000, 5])) + \
+                items + rng.bytes(rng.between(0, 40))
         if len(data) < 50 and rng.chance(3, 4):
             data += b"N" * (50 - len(data))
         return data, {"kind": "not_bytecode", "what": kind, "magic": 62135, "len": len(data), "count": b}
@@ -550,11 +563,15 @@ def synth_not_bytecode(rng, magics):
             # header words then a stream of plausible type codes and small ints
             body = struct.pack("<III", rng.choice([0, 1, 2, 3]), rng.bits(32), rng.bits(32))
             parts = []
+            if rng.chance(1, 3):
+                # a container with a huge count whose first item has a small negative length
+                parts.append(rng.choice([b"[", b"(", b"<", b">"]) + struct.pack("<i", rng.choice([(1 << 31) - 1, 1 << 20, 300000])))
+                parts.append(rng.choice([b"s", b"t", b"u", b"a", b"A"]) + struct.pack("<i", -rng.between(1, 12)))
             for _ in range(rng.between(10, 200)):
                 c = rng.choice(TYPE_CODES)
                 if rng.chance(1, 3):
                     c |= 0x80
-                parts.append(bytes([c]) + struct.pack("<i", rng.choice(INT_SPECIALS[:8] + [3, 4, 5])))
+                parts.append(bytes([c]) + struct.pack("<i", rng.choice(INT_SPECIALS[:8] + [3, 4, 5, -5, -4, -2])))
             body += b"".join(parts)
         b = hdr + body
         return b, {"kind": "not_bytecode", "what": kind, "magic": m, "len": len(b)}
